@@ -531,6 +531,8 @@ def format_sources(fn):
 
     def clean(v):
         t = ir.top_nocast(v)
+        if t[0] == 'cond':
+            return clean(t[2]) and clean(t[3])
         return t[0] in ('str', 'param', 'int', 'initlist', 'zero') or (t[0] == 'call' and ir.callee_name(t) in ALLOC)
     good = {}
     for s_ in ir.stmts(fn['body']):
@@ -546,5 +548,7 @@ def format_sources(fn):
 
     def ok(a):
         a = ir.top_nocast(a)
+        if a[0] == 'cond':
+            return ok(a[2]) and ok(a[3])
         return a[0] in ('str', 'param') or (a[0] == 'local' and len(a) > 2 and good.get(a[2], False))
     return ok
